@@ -186,7 +186,13 @@ def run_path(start_kind, start_state, path, conc, rng, universe, deep=True):
             keys, val = [], None
         else:
             keys, val = [conc.any_key(rng, a[0])], None
+        prev = d
         d, res = apply_op(d, op, keys, val)
+        if op in ("copy", "dumpparse") and d is not prev and rng.random() < 0.5:
+            # both objects are in the same model state now: carry on with the SOURCE and retain
+            # the copy instead (a copy must not read through to / share structure with its source)
+            retained[-1] = (i + 1, d, observe_raw(prev))
+            d = prev
         mres = e["res"]
         unspec = op in ("before", "after") and a[0] == a[1] and not any(x["n"] == a[0] for x in e["from"])
         where = "step %d %s%r" % (i + 1, op, tuple(keys) + ((val,) if val is not None else ()))
@@ -203,8 +209,12 @@ def run_path(start_kind, start_state, path, conc, rng, universe, deep=True):
         if obs != exp:
             return "%s: mapping is %r, model says %r" % (where, obs, exp)
         for (j, src, snap) in retained:
-            if src is not d and observe_raw(src) != snap:
-                return "%s: the object that was copied at step %d changed from %r to %r" % (where, j, snap, observe_raw(src))
+            try:
+                now = observe_raw(src)
+            except Exception as ex:
+                return "%s: the other object of the copy made at step %d can no longer be read (%s)" % (where, j, type(ex).__name__)
+            if src is not d and now != snap:
+                return "%s: the other object of the copy made at step %d changed from %r to %r" % (where, j, snap, observe_raw(src))
         if deep or i == len(path) - 1:
             m = check_views(d, e["to"], conc, universe)
             if m:
